@@ -39,6 +39,9 @@ func (s CacheStatus) ApplyTo(header http.Header) {
 	header.Set(CacheStatusHeader, s.Value)
 	if s.Legacy != "" {
 		header.Set(FromCacheHeader, s.Legacy)
+	} else {
+		// not from this cache: a value the origin (or a caching layer in front of it) sent does not stand
+		header.Del(FromCacheHeader)
 	}
 }
 
